@@ -272,9 +272,16 @@ def gen_cylinder(rng, i):
         [rng.uniform(-1, 1) * (10.0 if style == 'near' else 1e3) for _ in range(3)]
     r = loguniform(rng, 1e-3, 1e3)
     h = loguniform(rng, 1e-3, 1e3)
-    if rng.random() < 0.5:                    # comparable dimensions half of the time
+    shape = rng.random()
+    if shape < 0.5:                           # comparable dimensions half of the time
         h = r * loguniform(rng, 0.05, 20.0)
         h = min(max(h, 1e-3), 1e3)
+    elif shape < 0.6:                         # needle: h/r = 1e4 .. 1e6
+        r = loguniform(rng, 1e-3, 1e-1)
+        h = min(r * loguniform(rng, 1e4, 1e6), 1e3)
+    elif shape < 0.7:                         # wafer: r/h = 1e4 .. 1e6
+        h = loguniform(rng, 1e-3, 1e-1)
+        r = min(h * loguniform(rng, 1e4, 1e6), 1e3)
     return {'axis': a, 'axis_name': aname, 'base': base, 'r': r, 'h': h, 'unit': rng.choice(['mm', 'm'])}
 
 
@@ -316,6 +323,24 @@ def gen_rays(rng, c, n_each):
             n = normalise(lin((rng.uniform(-1, 1), tang), (rng.uniform(-1, 1), a), (rng.uniform(-0.2, 0.2), radial)))
         s = lin((1, p), (-loguniform(rng, 0.1, 100) * r, n))
         rays.append({'cls': 'tangent', 's': s, 'n': n})
+        # NEARLY parallel to the axis (tilt 1e-9 .. 1e-2, chosen around r/h for slender solids so that the side wall
+        # decides), starting inside or next to the solid
+        lo_t, hi_t = (max(1e-9, 0.05 * r / h), min(1e-2, 50 * r / h)) if r / h < 1e-3 else (1e-9, 1e-3)
+        tilt = loguniform(rng, lo_t, max(hi_t, lo_t * 10))
+        ph = rng.uniform(0, 2 * math.pi)
+        n = normalise(lin((rng.choice([1.0, -1.0]), a), (tilt * math.cos(ph), e1), (tilt * math.sin(ph), e2)))
+        rho = r * rng.choice([0.0, rng.random(), rng.uniform(1.0, 2.0)])
+        ph2 = rng.uniform(0, 2 * math.pi)
+        s = lin((1, B), (rng.uniform(-0.5, 1.5) * h, a), (rho * math.cos(ph2), e1), (rho * math.sin(ph2), e2))
+        rays.append({'cls': 'near-parallel', 's': s, 'n': n})
+        # NEARLY perpendicular to the axis (n.a = 1e-9 .. 1e-2, around h/r for flat solids so that the end faces decide)
+        lo_t, hi_t = (max(1e-9, 0.05 * h / r), min(1e-2, 50 * h / r)) if h / r < 1e-3 else (1e-9, 1e-3)
+        tilt = loguniform(rng, lo_t, max(hi_t, lo_t * 10))
+        ph = rng.uniform(0, 2 * math.pi)
+        n = normalise(lin((tilt * rng.choice([1.0, -1.0]), a), (math.cos(ph), e1), (math.sin(ph), e2)))
+        z = h * rng.choice([0.5, rng.random(), rng.uniform(-1.0, 0.0), rng.uniform(1.0, 2.0)])
+        s = lin((1, B), (z, a), (rng.uniform(-1.5, 1.5) * r, e1), (rng.uniform(-1.5, 1.5) * r, e2))
+        rays.append({'cls': 'near-perpendicular', 's': s, 'n': n})
     return rays
 
 
@@ -532,7 +557,8 @@ def correspondence(ctx):
         'rule': 'cylinders: 13 special axes (+-x,+-y,+-z, (0,.6,-.8), near +-z, below the 1e-10 threshold, equator, all-negative) then uniform '
                 'on the sphere; base at 0 / within 10 / within 1e3; r,h log-uniform 1e-3..1e3 (half with 0.05<=h/r<=20), unit mm or m; '
                 'rays per cylinder: inside start, outside start (aimed/not), exactly parallel to axis or end faces, tangent to the lateral '
-                'surface (tilted) or grazing a rim; quadrature kinds cheap (all), medium (1/3 + special axes), expensive (1/10); '
+                'surface (tilted) or grazing a rim, NEARLY parallel to the axis (tilt 1e-9..1e-2, around r/h for needles), NEARLY perpendicular '
+                '(n.a 1e-9..1e-2, around h/r for wafers); 10% needles (h/r 1e4..1e6), 10% wafers; quadrature kinds cheap (all), medium (1/3 + special axes), expensive (1/10); '
                 'transmission: mu*r in {0.05,0.3,1}, lambda 0.1..20 A, detectors 3..3000 sizes away in random directions, units m/mm, '
                 'a random (possibly improper) orthogonal map + translation and the other-end description',
         'observed': {'rays': n_rays, 'ray_classes': cls_count, 'quadrature_points_tested': n_points, 'axis_classes': axis_count,
